@@ -104,8 +104,9 @@ def symmetrises(st, name: str) -> bool:
         if isinstance(n, ast.BinOp) and isinstance(n.op, ast.Add):
             l, r = ast.unparse(n.left), ast.unparse(n.right)
             for a, b in ((l, r), (r, l)):
-                if a == name and b in (f"{name}.T", f"{name}.transpose()",
-                                       f"np.transpose({name})"):
+                # Y + Y.T for any Y: the value bound to `name` is symmetric
+                if b in (f"{a}.T", f"{a}.transpose()", f"np.transpose({a})") and \
+                        a.isidentifier():
                     return True
     if isinstance(st.value, ast.Call) and _np(st.value.func, ("maximum", "minimum")):
         a = [ast.unparse(x) for x in st.value.args]
@@ -261,3 +262,149 @@ def diagonal_store(st, fnode=None):
     if t is not None:
         return t, st.value
     return None
+
+
+def inline_simple_helpers(fnode, resolve, depth=2):
+    """Copy of the function `fnode` in which calls of small private helpers are
+    replaced by what they stand for (resolve(name) -> FunctionDef | None):
+
+      T = H(args)              H: straight-line body ending in `return e`
+      for T in H(args): BODY   H: generator `for v in it: <pre>; yield e`
+
+    Helper parameters are substituted by the argument expressions and helper
+    locals get fresh names, so the rules see the statements the original,
+    un-factored code consisted of."""
+    import copy
+    counter = [0]
+
+    def subst(node, mapping):
+        class T(ast.NodeTransformer):
+            def visit_Name(self, n):
+                if n.id in mapping:
+                    new = copy.deepcopy(mapping[n.id])
+                    if isinstance(new, ast.Name):
+                        new.ctx = n.ctx
+                    return ast.copy_location(new, n)
+                return n
+        return T().visit(copy.deepcopy(node))
+
+    def prepare(call):
+        if not (isinstance(call, ast.Call) and isinstance(call.func, (ast.Attribute,
+                                                                       ast.Name))):
+            return None
+        name = call.func.attr if isinstance(call.func, ast.Attribute) else call.func.id
+        h = resolve(name)
+        if h is None or call.keywords:
+            return None
+        params = [a.arg for a in h.args.args]
+        if params and params[0] in ("self", "cls") and len(params) == len(call.args) + 1:
+            params = params[1:]
+        if len(params) != len(call.args):
+            return None
+        body = [b for b in h.body if not (isinstance(b, ast.Expr) and
+                                          isinstance(b.value, ast.Constant))]
+        counter[0] += 1
+        k = counter[0]
+        locs = {n.id for b in body for n in ast.walk(b)
+                if isinstance(n, ast.Name) and isinstance(n.ctx, ast.Store)}
+        mapping = {p_: a for p_, a in zip(params, call.args)}
+        for l in locs:
+            if l not in mapping:
+                mapping[l] = ast.Name(id=f"_h{k}_{l}", ctx=ast.Load())
+        return body, mapping
+
+    def fixloc(nodes, lineno):
+        for o in nodes:
+            for n in ast.walk(o):
+                if not hasattr(n, "lineno") or n.lineno is None:
+                    n.lineno = lineno
+                    n.col_offset = 0
+                    n.end_lineno = lineno
+                    n.end_col_offset = 0
+        return nodes
+
+    def alias(target, value, mapping, params):
+        """`a, b = x, y` with x, y helper locals: let the helper compute straight
+        into a, b (no bind statement needed).  -> True when applied."""
+        ts = target.elts if isinstance(target, ast.Tuple) else [target]
+        vs = value.elts if isinstance(value, ast.Tuple) else [value]
+        if len(ts) != len(vs) or not all(isinstance(t, ast.Name) for t in ts) or \
+                not all(isinstance(v, ast.Name) and v.id not in params for v in vs) or \
+                len({v.id for v in vs}) != len(vs):
+            return False
+        for t, v in zip(ts, vs):
+            mapping[v.id] = ast.Name(id=t.id, ctx=ast.Load())
+        return True
+
+    def expand(st):
+        if isinstance(st, ast.Assign) and len(st.targets) == 1:
+            pr = prepare(st.value)
+            if pr is None:
+                return None
+            body, mapping = pr
+            rets = [n for b in body for n in ast.walk(b) if isinstance(n, ast.Return)]
+            if not (len(rets) == 1 and body and isinstance(body[-1], ast.Return)
+                    and body[-1].value is not None):
+                return None
+            params = {k_ for k_, v_ in mapping.items() if not (
+                isinstance(v_, ast.Name) and v_.id.startswith("_h"))}
+            if alias(st.targets[0], body[-1].value, mapping, params):
+                return fixloc([subst(b, mapping) for b in body[:-1]], st.lineno)
+            out = [subst(b, mapping) for b in body[:-1]]
+            out.append(ast.Assign(targets=[copy.deepcopy(st.targets[0])],
+                                  value=subst(body[-1].value, mapping)))
+            return fixloc(out, st.lineno)
+        if isinstance(st, ast.For):
+            pr = prepare(st.iter)
+            if pr is None:
+                return None
+            body, mapping = pr
+            if not (len(body) == 1 and isinstance(body[0], ast.For) and body[0].body and
+                    isinstance(body[0].body[-1], ast.Expr) and
+                    isinstance(body[0].body[-1].value, ast.Yield) and
+                    body[0].body[-1].value.value is not None):
+                return None
+            ys = [n for n in ast.walk(body[0]) if isinstance(n, (ast.Yield, ast.YieldFrom))]
+            if len(ys) != 1:
+                return None
+            g = body[0]
+            params = {k_ for k_, v_ in mapping.items() if not (
+                isinstance(v_, ast.Name) and v_.id.startswith("_h"))}
+            aliased = alias(st.target, g.body[-1].value.value, mapping, params)
+            pre = [subst(b, mapping) for b in g.body[:-1]]
+            bind = [] if aliased else [ast.Assign(
+                targets=[copy.deepcopy(st.target)],
+                value=subst(g.body[-1].value.value, mapping))]
+            new = ast.For(target=subst(g.target, mapping), iter=subst(g.iter, mapping),
+                          body=pre + bind + list(st.body), orelse=list(st.orelse))
+            for x in ast.walk(new.target):
+                if isinstance(x, ast.Name):
+                    x.ctx = ast.Store()
+            new.lineno = st.lineno
+            return fixloc([new], st.lineno)
+        return None
+
+    def walk_block(stmts, d):
+        out = []
+        for st in stmts:
+            ex = expand(st) if d > 0 else None
+            if ex is not None:
+                out.extend(walk_block(ex, d - 1))
+                continue
+            st = copy.copy(st)
+            for fld in ("body", "orelse", "finalbody"):
+                if isinstance(getattr(st, fld, None), list) and \
+                        not isinstance(st, (ast.FunctionDef, ast.ClassDef)):
+                    setattr(st, fld, walk_block(getattr(st, fld), d))
+            if isinstance(st, ast.Try):
+                hs = []
+                for h_ in st.handlers:
+                    h2 = copy.copy(h_)
+                    h2.body = walk_block(h_.body, d)
+                    hs.append(h2)
+                st.handlers = hs
+            out.append(st)
+        return out
+    new = copy.copy(fnode)
+    new.body = walk_block(fnode.body, depth)
+    return new
